@@ -130,6 +130,8 @@ def gen(tape, big=False):
                     ev["route_code"] = "sub"
                 if tape.chance("program", 1, 3, "own-timestamp"):
                     ev["timestamp"] = ("explicit", w * 10 + i)
+                elif tape.chance("program", 1, 4, "timestamp-keyword-none"):
+                    ev["timestamp"] = None      # "no timestamp" spelled out, as a relayed event dict has it
                 if tape.chance("program", 1, 4, "tags"):
                     ev["test_tags"] = ["t%d" % i]
                 items.append(ev)
